@@ -212,6 +212,52 @@ def check_defaults_and_ctor(tkey, seed):
     return n, vs
 
 
+def lenient_load(tkey):
+    """Lenient mode as the READER uses it: a file whose stored value for a fixed-range controller is outside the
+    range (min-1, max+1, -1, far above) loads without an exception, the controller keeps a value, and saving
+    writes the same stored word back (nothing is silently re-interpreted, e.g. as an unsigned number)."""
+    from struct import pack, unpack
+
+    import rv.api as rv
+    from rvref import codec
+
+    t = spec.types()[tkey]
+    if tkey == "Output" or not t.controllers:
+        return 0, []
+    cls = cls_of(tkey)
+    base = codec.parse_chunks(C.save(rv.Synth(cls())))
+    cval_pos = [i for i, (cid, _d) in enumerate(base) if cid == b"CVAL"]
+    vs = []
+    n = 0
+    for ci, c in enumerate(t.controllers):
+        if c.kind not in ("range", "compact", "no_offset") or ci >= len(cval_pos):
+            continue
+        off = c.min if (c.min < 0 and c.kind != "no_offset") else 0
+        for raw in sorted({c.min - off - 1, c.max - off + 1, -1, c.max - off + 100000, -70000}):
+            if c.min - off <= raw <= c.max - off:
+                continue
+            n += 1
+            chunks = list(base)
+            chunks[cval_pos[ci]] = (b"CVAL", pack("<i", raw))
+            case = {"type": tkey, "lenient_load": [c.name, raw]}
+            key = {"type": tkey, "controller": c.name, "side": "below" if raw < c.min - off else "above"}
+            try:
+                o = C.load_bytes(codec.build_chunks(chunks))
+            except Exception as e:
+                vs.append(C.viol("lenient-load-raises", dict(key, exc=type(e).__name__), {"raw": raw, "error": repr(e)[:200]}, case))
+                continue
+            try:
+                again = codec.parse_chunks(C.save(o))
+                (got,) = unpack("<i", again[cval_pos[ci]][1])
+            except Exception as e:
+                vs.append(C.viol("lenient-load-then-save-raises", dict(key, exc=type(e).__name__), {"raw": raw, "error": repr(e)[:200]}, case))
+                continue
+            if got != raw:
+                vs.append(C.viol("lenient-load-changes-stored-value", key, {"stored": raw, "resaved": got,
+                                                                            "value": repr(getattr(o.module, c.attr))}, case))
+    return n, vs
+
+
 def first_use_table(mode):
     """Defaults reported by cls() in THIS process, where the first-ever instance of each type was built
     with constructor keywords (mode 'kwargs-first'), through a project (mode 'new-module-first') or plainly."""
@@ -270,6 +316,8 @@ def first_use_independence():
 def run_case(case):
     if case.get("first_use"):
         return first_use_independence()[1]
+    if case.get("lenient_load"):
+        return [v for v in lenient_load(case["type"])[1] if v["case"]["lenient_load"][0] == case["lenient_load"][0]]
     if case.get("default") or "ctor" in case:
         _n, vs = check_defaults_and_ctor(case["type"], 0)
         return [v for v in vs if v["key"].get("controller") == case["controller"]]
@@ -281,6 +329,10 @@ def _task(t):
     r = C.new_result()
     if t[0] == "defaults":
         n, vs = check_defaults_and_ctor(t[1], t[2])
+        n2, vs2 = lenient_load(t[1])
+        n += n2
+        vs = vs + vs2
+        C.count(r, "lenient_loads", n2)
         r["sample"] = {"type": t[1], "defaults_and_ctor": True}
     else:
         _k, tkey, cname, seed, lenient, unit = t
@@ -323,6 +375,6 @@ def run(ctx):
                 "as every ordered pair, strict and lenient, attribute and constructor path; each (controller, mode, "
                 "sequence) is distinct by construction; non-trivial = sequences beyond the bare default read",
         "exhaustive": True,
-        "first_use_comparisons": n_fu, "types": len(spec.types()), "controllers": nctl, "controller_mode_tasks": agg.counters.get("controller_modes", 0),
+        "first_use_comparisons": n_fu, "lenient_loads_of_out_of_range_files": agg.counters.get("lenient_loads", 0), "types": len(spec.types()), "controllers": nctl, "controller_mode_tasks": agg.counters.get("controller_modes", 0),
         "samples": agg.samples,
     }
